@@ -585,6 +585,8 @@ namespace awkward {
 
   const ContentPtr
   EmptyArray::localindex(int64_t axis, int64_t depth) const {
+    // refuses a negative axis that lies above this node, as num and flatten do
+    axis_wrap_if_negative(axis, depth);
     return std::make_shared<NumpyArray>(Index64(0));
   }
 
@@ -599,6 +601,8 @@ namespace awkward {
       throw std::invalid_argument(
         std::string("in combinations, 'n' must be at least 1") + FILENAME(__LINE__));
     }
+    // refuses a negative axis that lies above this node, as num and flatten do
+    axis_wrap_if_negative(axis, depth);
     return std::make_shared<EmptyArray>(identities_, util::Parameters());
   }
 
